@@ -305,7 +305,7 @@ impl ToLinker {
         self.consume().await?;
         let linker_sri = self.linker.commit().await?;
         if let Some(sri) = &self.opts.sri {
-            if sri.matches(&linker_sri).is_none() {
+            if !crate::put::declared_integrity_matches(sri, &linker_sri) {
                 return Err(ssri::Error::IntegrityCheckError(sri.clone(), linker_sri).into());
             }
         } else {
@@ -449,7 +449,7 @@ impl SyncToLinker {
         let cache = self.cache;
         let linker_sri = self.linker.commit()?;
         if let Some(sri) = &self.opts.sri {
-            if sri.matches(&linker_sri).is_none() {
+            if !crate::put::declared_integrity_matches(sri, &linker_sri) {
                 return Err(ssri::Error::IntegrityCheckError(sri.clone(), linker_sri).into());
             }
         } else {
